@@ -2,6 +2,7 @@ package eng
 
 import (
 	"fmt"
+	"math"
 	"strconv"
 	"time"
 
@@ -217,6 +218,10 @@ func (g *Gen) primD(pk string, allowZero bool) D {
 		f := g.smallFloat()
 		if !allowZero && f == 0 {
 			f = 2.5
+		}
+		if r.P(1, 14) {
+			// not-a-number and the infinities are float values like any other: every comparison with NaN is false
+			f = rng.Pick(r, []float64{math.NaN(), math.NaN(), math.Inf(1), math.Inf(-1)})
 		}
 		return D{K: "f", NK: pk, F: f}
 	case "bool":
@@ -756,8 +761,8 @@ func (g *Gen) Input(n *Node) V {
 				VF64(float64(r.Range(-3, 12))), VF64(g.smallFloat()), VBool(r.P(1, 2)), {K: "i", IK: "i64", I: nn}, {K: "i", IK: "i32", I: int64(int32(nn))}, {K: "i", IK: "other", I: 3},
 				VF64(rng.Pick(r, []float64{3e9, -3e9, 1e19, -1e19}))})
 		case "f64", "f32":
-			return rng.Pick(r, []V{VF64(g.smallFloat()), VF64(g.smallFloat()), VInt(g.smallInt()), VStr(rng.Pick(r, []string{"1.5", "2", "-0.25", "1e3", "zz", "1e400", "NaN", "1e300"})),
-				{K: "f32", F: float64(float32(g.smallFloat()))}, {K: "i", IK: "i64", I: 3}, VF64(1e300)})
+			return rng.Pick(r, []V{VF64(g.smallFloat()), VF64(g.smallFloat()), VInt(g.smallInt()), VStr(rng.Pick(r, []string{"1.5", "2", "-0.25", "1e3", "zz", "1e400", "NaN", "nan", "1e300", "Inf", "-inf", "+Inf"})),
+				{K: "f32", F: float64(float32(g.smallFloat()))}, {K: "i", IK: "i64", I: 3}, VF64(1e300), VF64(math.NaN()), VF64(math.Inf(-1))})
 		case "bool":
 			return rng.Pick(r, []V{VBool(true), VBool(false), VStr(rng.Pick(r, []string{"true", "false", "on", "off", "1", "0", "T", "F", "TRUE", "yes", "zz"})), VInt(int64(r.Range(0, 2)))})
 		case "time":
